@@ -12,6 +12,7 @@ import (
 	"os"
 	"runtime"
 	"testing"
+	"time"
 )
 
 type draw struct {
@@ -135,6 +136,14 @@ func Halt() { panic(stop{"halt"}) }
 
 // Unsupported marks harness branches that the symbolic run must not take silently.
 func Unsupported(msg string) { panic(stop{"unsupported: " + msg}) }
+
+// TLSClientHandshakeFails makes the next n client-side handshakes of the executor's crypto/tls model fail.
+// Natively it does nothing (harnesses that use it are model-only).
+func TLSClientHandshakeFails(n int) {}
+
+// TLSHandshakeDeadline reports the deadline of the context handed to the last HandshakeContext call of the
+// executor's crypto/tls model. Natively it reports none (harnesses that use it are model-only).
+func TLSHandshakeDeadline() (time.Time, bool) { return time.Time{}, false }
 
 // Observe records a value; the replay compares it with what the executor computed under the model.
 func Observe(label string, v any) { fmt.Printf("VF-OBS %s=%s\n", label, render(v)) }
